@@ -439,6 +439,11 @@ func printExpr(sb *strings.Builder, n *N, depth int) {
 			sb.WriteString(")")
 		}
 		sb.WriteString("^" + n.Str)
+		if len(n.L) > 0 || len(n.Kw) > 0 {
+			sb.WriteString("(")
+			printArgs(sb, n, depth)
+			sb.WriteString(")")
+		}
 	default:
 		panic("gen: cannot print " + n.K)
 	}
